@@ -37,6 +37,7 @@ def augment_exception_message_and_reraise(exception, message):
   ExceptionProxy.__name__ = type(exception).__name__
 
   proxy = ExceptionProxy()
+  proxy.args = exception.args  # `args` is a C-level slot: never reaches __getattr__.
   ExceptionProxy.__qualname__ = type(exception).__qualname__
   raise proxy.with_traceback(exception.__traceback__)
 
